@@ -412,32 +412,52 @@ class Runner:
         if tracked:
             try: t = inst.tell(); pos = (None if t[0] == 'start' else us_of_name(t[0]), t[1])
             except Exception: pos = None
-        if crash is None:
-            try: inst.write_head()
-            except Exception as e: return self.canon_err(e), mop, None
-            if pos is not None: self.save_ok(pos)
-            return {'r': 'ok'}, mop, None
+        # Process-death semantics: every file-system operation of write_head is an event (open tmp, write, close, rename), counted
+        # in the order the real code performs them; `crash = k` kills the process after k events.  Data written to the temp file
+        # sits in a user-space buffer until the file is closed (as with Python's buffered text files) and is lost if the process
+        # dies first.  The observed order of the events is kept for the tie with OF.RollLog.headStepNames.
+        events, done, dead = [], [0], [False]
+
+        def step(name, action):
+            if crash is not None and done[0] >= crash:
+                dead[0] = True
+                raise Crash
+            action(); done[0] += 1; events.append(name)
 
         class F:
-            def __init__(s, f): s.f = f
+            def __init__(s, f): s.f = f; s.buf = []; s.closed = False
             def write(s, x):
-                if crash == 1: s.f.close(); raise Crash
-                if crash == 2: s.f.write(x[:max(1, len(x) // 2)]); s.f.close(); raise Crash
-                return s.f.write(x)
+                if crash == 2 and done[0] == 1 and self.torn:        # torn write: half of the bytes reach the file, then the process dies
+                    s.f.write(x[:max(1, len(x) // 2)]); s.f.flush(); dead[0] = True; raise Crash
+                step('write', lambda: s.buf.append(x)); return len(x)
+            def flush(s):
+                for x in s.buf: s.f.write(x)
+                s.buf = []; s.f.flush()
+            def close(s):
+                if s.closed: return
+                if dead[0]:
+                    s.closed = True; s.f.close(); return                # the process is gone: buffered bytes never reach the file
+                def act():
+                    for x in s.buf: s.f.write(x)
+                    s.buf = []; s.f.close(); s.closed = True
+                try: step('close', act)
+                except Crash:
+                    s.closed = True; s.f.close(); raise
             def __enter__(s): return s
-            def __exit__(s, *a): s.f.close()
+            def __exit__(s, *a): s.close()
 
+        opened = []
         def fopen(p, *a, **k):
             if str(p).endswith('.tmp'):
-                if crash == 0: raise Crash
-                return F(real_open(p, *a, **k))
+                box = {}
+                step('open', lambda: box.setdefault('f', F(real_open(p, *a, **k))))
+                opened.append(box['f']); return box['f']
             return real_open(p, *a, **k)
 
         def frename(a, b):
-            if crash == 3: raise Crash
-            real_rename(a, b)
-            raise Crash
+            step('rename', lambda: real_rename(a, b))
 
+        self.torn = bool(op.get('torn', crash == 2))
         RL.open = fopen; os.rename = frename
         err = None
         try:
@@ -446,13 +466,23 @@ class Runner:
             except Exception as e: err = e
         finally:
             del RL.open; os.rename = real_rename
+            for f in opened:
+                if not f.closed: f.closed = True; f.f.close()
+        if crash is None or (not dead[0] and err is None and crash > len(events)):
+            pass
+        if tracked and crash is None and err is None and events: self.head_events.append(list(events))
+        if crash is None:
+            if err is not None: return self.canon_err(err), mop, None
+            if pos is not None: self.save_ok(pos)
+            return {'r': 'ok'}, mop, None
         if err is not None: return self.canon_err(err), mop, None      # write_head itself failed: the instance lives on
-        if pos is not None and crash >= 4: self.save_ok(pos)
+        if pos is not None and 'rename' in events: self.save_ok(pos)   # the new position was published before the process died
         self.inst[who] = None; self.dead.add(who)                       # the process is gone
         return {'r': 'ok'}, mop, None
 
     def run(self):
         from openfilter.filter_runtime import rolllog as RL
+        self.head_events = getattr(self, 'head_events', [])
         self.RL, self.RollLog = RL, RL.RollLog
         root = tempfile.mkdtemp(prefix='rl', dir=os.getcwd())
         self.dir, self.head = os.path.join(root, 'logs'), os.path.join(root, 'head.json')
